@@ -97,6 +97,23 @@ theorem insertBy_of_all_le {le : α → α → Bool} (a : α) (l : List α) (h :
     rw [if_pos (h b (by simp)), ih (fun x hx => h x (by simp [hx]))]
     rfl
 
+theorem eq_of_nodup_map {α β : Type} (f : α → β) : ∀ {l : List α}, (l.map f).Nodup →
+    ∀ {x y : α}, x ∈ l → y ∈ l → f x = f y → x = y := by
+  intro l
+  induction l with
+  | nil => intro _ x y hx; cases hx
+  | cons a t ih =>
+    intro hn x y hx hy e
+    simp only [List.map_cons, List.nodup_cons] at hn
+    rcases List.mem_cons.1 hx with hxa | hxt
+    · rcases List.mem_cons.1 hy with hya | hyt
+      · rw [hxa, hya]
+      · exact absurd (List.mem_map.2 ⟨y, hyt, by rw [← e, hxa]⟩) hn.1
+    · rcases List.mem_cons.1 hy with hya | hyt
+      · exact absurd (List.mem_map.2 ⟨x, hxt, by rw [e, hya]⟩) hn.1
+      · exact ih hn.2 hxt hyt e
+
+
 /-! ### the byte-string order -/
 
 theorem strLe_iff (a b : Str) : strLe a b = true ↔ a ≤ b := by simp [strLe]
